@@ -59,6 +59,24 @@ def shapes(seed):
     ]
 
 
+def extra_shapes(seed):
+    """lines used by the mutation passes only (substituted for / inserted next to the lines of well-formed
+    changelogs): unusual but legal spellings"""
+    p = core.rep(seed, ["pkg", "lib-x.y+z", "a0", "P"])
+    return [
+        "%s (1.0-6) unstable; urgency=low, x\u0130d=7" % p,          # a key whose lower() has another length
+        "%s (1.0-6) unstable; urgency=low, x\u212ad=7" % p,          # KELVIN SIGN folds to k
+        "%s (1.0-6) unstable; urgency=low, Binary-Only=yes, X-b=c" % p,
+        "%s (1.0-6) unstable; urgency=LOW (Comment, kept)" % p if False else "%s (1.0-6) unstable; urgency=LOW" % p,
+        " -- \u00c9 \u0130 <>  Thu,  5 Feb 2009 11:22:33 -1200",
+        "  * change with trailing blanks  \t",
+    ]
+
+
+def allshapes(seed):
+    return shapes(seed) + extra_shapes(seed)
+
+
 def run(text, **kw):
     from debian.changelog import Changelog
     with warnings.catch_warnings(record=True) as w:
@@ -164,24 +182,26 @@ def wellformed(seed):
     ]
 
 
-def single_edits(lines, seed):
+def single_edits(lines, seed, basic=False):
+    """basic: insertions of the 21 base shapes, deletions, duplications (the second edit of a pair)"""
     out = []
-    sh = shapes(seed)
+    sh = shapes(seed) if basic else allshapes(seed)
     for pos in range(len(lines) + 1):
         for k in range(len(sh)):
             out.append(("ins", pos, k))
     for pos in range(len(lines)):
         out.append(("del", pos))
         out.append(("dup", pos))
-        for k in range(len(sh)):
-            out.append(("sub", pos, k))
+        if not basic:
+            for k in range(len(sh)):
+                out.append(("sub", pos, k))
     return out
 
 
 def apply_edit(lines, e, seed):
     lines = list(lines)
     if e[0] == "ins":
-        lines.insert(e[1], shapes(seed)[e[2]])
+        lines.insert(e[1], allshapes(seed)[e[2]])
     elif e[0] == "del":
         if e[1] < len(lines):
             del lines[e[1]]
@@ -190,7 +210,7 @@ def apply_edit(lines, e, seed):
             lines.insert(e[1], lines[e[1]])
     elif e[0] == "sub":
         if e[1] < len(lines):
-            lines[e[1]] = shapes(seed)[e[2]]
+            lines[e[1]] = allshapes(seed)[e[2]]
     return lines
 
 
@@ -326,7 +346,7 @@ def run_unit(u, tier, seed):
             edit_lists = []
             for e1 in firsts:
                 l1 = apply_edit(base, e1, seed)
-                for e2 in single_edits(l1, seed):
+                for e2 in single_edits(l1, seed, basic=True):
                     edit_lists.append([e1, e2])
         for edits in edit_lists:
             lines = base
